@@ -55,7 +55,7 @@ def main():
     lines, skipped = spec_lines(chk, quick, frac)
     n_iid = 1500 if quick else 100000
     n_grid = 6 if quick else 40
-    exe, recs, fails = genmon.run_specs("plain", lines, chk.seed, n_iid, n_grid, True)
+    exe, recs, fails = genmon.run_specs("plain", lines, chk.seed, n_iid, n_grid, True, deep_events=30000 if quick else 5000000)
     for shard, rc, err in fails:
         chk.inconclusive_("gen_monitor shard %d exited %s: %s" % (shard, rc, err[-400:]))
     events = 0
@@ -91,7 +91,7 @@ def main():
             samples.append({"config": r["config"], **r["sample"]})
     worst.sort(reverse=True)
     # ---- reach of this workload inside the library (gcov build of the working tree; decides nothing, recorded as evidence)
-    reach, cfiles = covmon.measure_gen_monitor(lines, chk.seed, 200 if quick else 3000, 4 if quick else 12, True)
+    reach, cfiles = covmon.measure_gen_monitor(lines, chk.seed, 200 if quick else 3000, 4 if quick else 12, True, deep_events=30000 if quick else 300000)
     if reach["processes_failed"]:
         chk.note("coverage measurement: %d gen_monitor processes of the gcov build failed" % reach["processes_failed"])
     chk.require(reach["lines"]["percent"] >= 60.0, "the workload reached only %.1f %% of the library's lines" % reach["lines"]["percent"])
@@ -105,8 +105,8 @@ def main():
                 "generator label, is_valid(), draws <= 2e6 (hard cap) and draws <= 20000 (work bound: observed maxima on this tree stay below ~5000 "
                 "even for windows holding 1e-15 of the spectrum; not applied to windows on mode 10, whose reference algorithm rejects under the "
                 "maximum of the whole positron spectrum); window ladders climbing to the end-point for the window-capable modes; tapes: i.i.d. + each of the first K<=64 cells pinned to 1e-12, 1-1e-12, 1e-300, "
-                "pairs of neighbouring cells in opposite tails, a quantile/log-tail grid and branching thresholds, and 40 leading cells all "
-                "in one tail; distinct = distinct (configuration, branch signature) pairs",
+                "pairs of neighbouring cells in opposite tails, a quantile/log-tail grid and branching thresholds, 40 leading cells all in one tail, "
+                "and a frontier search over pinned cells guided by new branch signatures (harness/steer.h: rare branches of rare branches); distinct = distinct (configuration, branch signature) pairs",
         "samples": samples,
         "background_names": nb,
         "dbd_configurations": nd,
